@@ -140,9 +140,13 @@ fn run_one(sc: &Value) {
     if has_prev {
         fa.put_stub(foff - 16, ORIG_ID + 1);
     }
-    let has_next = foff + 16 + 6 <= fa.len && !prologue.starts_with("thunk");
+    // "packed": the next function starts right behind the target's last byte (hand-written assembly, JIT output),
+    // not at the next 16-byte boundary
+    let packed = sc.get("packed").and_then(|x| x.as_bool()).unwrap_or(false) && (prologue.is_empty() || prologue == "plain");
+    let next_off: usize = if packed { 6 } else { 16 };
+    let has_next = foff + next_off + 6 <= fa.len && !prologue.starts_with("thunk");
     if has_next {
-        fa.put_stub(foff + 16, ORIG_ID + 2);
+        fa.put_stub(foff + next_off, ORIG_ID + 2);
     }
     fa.seal();
     // fake arena
@@ -254,7 +258,7 @@ fn run_one(sc: &Value) {
         emit(json!({"ev":"Neighbour","which":"prev","res":call_stub(func_addr - 16),"want":ORIG_ID + 1}));
     }
     if has_next && body_addr == 0 {
-        emit(json!({"ev":"Neighbour","which":"next","res":call_stub(func_addr + 16),"want":ORIG_ID + 2}));
+        emit(json!({"ev":"Neighbour","which":"next","res":call_stub(func_addr + next_off as u64),"want":ORIG_ID + 2,"packed":packed}));
     }
     if body_addr != 0 {
         // the function the thunk forwards to was never named: its own bytes are untouched (watched region
@@ -267,7 +271,195 @@ fn run_one(sc: &Value) {
     let entry2 = unsafe { std::slice::from_raw_parts(func_addr as *const u8, 16) }.to_vec();
     emit(json!({"ev":"Dropped","entry":entry2,"live":interpose::owned_live()}));
     emit(json!({"ev":"Called","phase":"dropped","res":call_stub(func_addr)}));
+    if has_next && body_addr == 0 {
+        emit(json!({"ev":"Neighbour","which":"next-after-drop","res":call_stub(func_addr + next_off as u64),"want":ORIG_ID + 2,"packed":packed}));
+    }
     drop(fake_arena);
+}
+
+
+/// several targets through one injector, several injector lifetimes in one process, trampolines placed by the
+/// kernel (no dictated page): what an installation does must not depend on, or disturb, the others.
+/// scenario: {"mode":"multi","lives":[{"base":B,"pages":n,"offs":[..]}, ..]}
+fn run_multi(sc: &Value) {
+    panics::install_hook();
+    let lives = sc.get("lives").and_then(|x| x.as_array()).cloned().unwrap_or_default();
+    emit(json!({"ev":"Place","mode":"multi","lives":lives.len()}));
+    for (li, life) in lives.iter().enumerate() {
+        let base = u(life, "base");
+        let pages = u(life, "pages") as usize;
+        let offs: Vec<u64> = life.get("offs").and_then(|x| x.as_array()).map(|a| a.iter().filter_map(|x| x.as_u64()).collect()).unwrap_or_default();
+        let fa = match Arena::map(base, pages) {
+            Some(a) => a,
+            None => {
+                emit(json!({"ev":"Note","what":"skipped","why":"target pages occupied"}));
+                return;
+            }
+        };
+        // the fakes: one page 64 MiB above the targets
+        let fk = match Arena::map(base + (64 << 20), 1) {
+            Some(a) => a,
+            None => {
+                emit(json!({"ev":"Note","what":"skipped","why":"fake page occupied"}));
+                return;
+            }
+        };
+        watch::clear();
+        let mut funcs = Vec::new();
+        for (k, off) in offs.iter().enumerate() {
+            let addr = fa.put_stub(*off as usize, ORIG_ID + 10 * k as u32);
+            let fake = fk.put_stub(64 * k, FAKE_ID + 10 * k as u32);
+            funcs.push((addr, fake));
+        }
+        fa.seal();
+        fk.seal();
+        let mut origs = Vec::new();
+        for (k, (addr, _)) in funcs.iter().enumerate() {
+            watch::add_entry(&format!("f{}", k + 1), *addr, 16.min((fa.base + fa.len as u64 - addr) as usize));
+            origs.push(unsafe { std::slice::from_raw_parts(*addr as *const u8, 6) }.to_vec());
+        }
+        let mut inj = in_lib(InjectorPP::new);
+        let mut tramps = Vec::new();
+        for (k, (addr, fake)) in funcs.iter().enumerate() {
+            let before: BTreeSet<u64> = interpose::OWNED.lock().unwrap().iter().map(|x| x.0).collect();
+            let r = catch_unwind(AssertUnwindSafe(|| {
+                in_lib(|| unsafe {
+                    inj.when_called(FuncPtr::new(*addr as *const (), "extern \"C\" fn() -> u32"))
+                        .will_execute_raw(FuncPtr::new(*fake as *const (), "extern \"C\" fn() -> u32"))
+                })
+            }));
+            interpose::set_in_lib(false);
+            watch::diff_all("install-end");
+            let after: Vec<u64> = interpose::OWNED.lock().unwrap().iter().map(|x| x.0).filter(|a| !before.contains(a)).collect();
+            let tramp = after.last().copied().unwrap_or(0);
+            tramps.push(tramp);
+            let (outcome, cls) = match &r {
+                Ok(()) => ("ok", ""),
+                Err(p) => ("panic", panics::classify(&panics::payload_str(&**p)).0),
+            };
+            emit(json!({"ev":"MInstalled","life":li + 1,"idx":k + 1,"outcome":outcome,"cls":cls,"func":a8(*addr),"tramp":a8(tramp),
+                "tramp_name":format!("m{:x}", tramp),"new_mappings":after.len(),"live":interpose::owned_live()}));
+        }
+        // the state every call will run through, read after ALL installations
+        for (k, (addr, fake)) in funcs.iter().enumerate() {
+            let tramp = tramps[k];
+            let mapped = tramp != 0 && interpose::OWNED.lock().unwrap().iter().any(|x| x.0 == tramp);
+            let entry = unsafe { std::slice::from_raw_parts(*addr as *const u8, 16.min((fa.base + fa.len as u64 - addr) as usize)) }.to_vec();
+            let trampb = if mapped { unsafe { std::slice::from_raw_parts(tramp as *const u8, 16) }.to_vec() } else { vec![0u8; 16] };
+            emit(json!({"ev":"MState","life":li + 1,"idx":k + 1,"func":a8(*addr),"entry":entry,"tramp":a8(tramp),"trampb":trampb,
+                "tramp_mapped":mapped,"fake":a8(*fake),"fake_known":true,"kind":"jump"}));
+        }
+        for (k, (addr, _)) in funcs.iter().enumerate() {
+            emit(json!({"ev":"MCalled","life":li + 1,"idx":k + 1,"phase":"installed","res":call_stub(*addr),"want":FAKE_ID + 10 * k as u32}));
+        }
+        in_lib(|| drop(inj));
+        watch::diff_all("drop-end");
+        let restored = funcs.iter().enumerate().all(|(k, (addr, _))| unsafe { std::slice::from_raw_parts(*addr as *const u8, 6) } == &origs[k][..]);
+        emit(json!({"ev":"MDropped","life":li + 1,"restored":restored,"live":interpose::owned_live()}));
+        for (k, (addr, _)) in funcs.iter().enumerate() {
+            emit(json!({"ev":"MCalled","life":li + 1,"idx":k + 1,"phase":"dropped","res":call_stub(*addr),"want":ORIG_ID + 10 * k as u32}));
+        }
+        fa.unmap();
+        fk.unmap();
+    }
+}
+
+// ---------------------------------------------------------------- async flavour (C14 through the placement lattice)
+#[inline(never)]
+pub async fn pl_async_target(x: u32) -> u32 {
+    std::hint::black_box(x) + 1000
+}
+#[inline(never)]
+pub async fn pl_async_sibling(x: u32) -> u32 {
+    std::hint::black_box(x) + 2000
+}
+#[inline(never)]
+pub fn pl_async_fake_poll() -> std::task::Poll<u32> {
+    std::task::Poll::Ready(std::hint::black_box(3000))
+}
+fn poll_addr<F: std::future::Future>(_: &F) -> u64 {
+    (<F as std::future::Future>::poll as fn(std::pin::Pin<&mut F>, &mut std::task::Context<'_>) -> std::task::Poll<F::Output>) as usize as u64
+}
+
+/// the poll function of an async fn is the target (in the harness text); the trampoline page is dictated relative to it;
+/// the fake is a forwarder (mov rax, pl_async_fake_poll; jmp rax) in an arena at an exact displacement from the trampoline
+fn run_async(sc: &Value) {
+    panics::install_hook();
+    let want_disp = i(sc, "disp");
+    let tramp_delta = i(sc, "tramp_delta_pages");
+    let probe_fut = pl_async_target(0);
+    let func_addr = poll_addr(&probe_fut);
+    drop(probe_fut);
+    let tramp_page = (page(func_addr) as i64 + tramp_delta * 4096) as u64;
+    let fake_addr = (tramp_page + 5).wrapping_add(want_disp as u64);
+    emit(json!({"ev":"Place","func":a8(func_addr),"tramp_page":a8(tramp_page),"fake":a8(fake_addr),"flavour":"async",
+        "disp":want_disp,"off":func_addr & 0xfff,"tramp_delta_pages":tramp_delta,"dictate":true}));
+    if fake_addr < 4096 || fake_addr >= (1u64 << 47) - 8192 {
+        emit(json!({"ev":"Note","what":"skipped","why":"fake address outside user space"}));
+        return;
+    }
+    let fk = match arena_for(fake_addr, 12) {
+        Some(a) => a,
+        None => {
+            emit(json!({"ev":"Note","what":"skipped","why":"fake pages occupied"}));
+            return;
+        }
+    };
+    let mut code = vec![0x48u8, 0xB8];
+    code.extend_from_slice(&(pl_async_fake_poll as usize as u64).to_le_bytes());
+    code.extend_from_slice(&[0xFF, 0xE0]);
+    fk.put_bytes((fake_addr - fk.base) as usize, &code);
+    fk.seal();
+    watch::clear();
+    watch::add_entry("f1", func_addr, 32);
+    let origb = unsafe { std::slice::from_raw_parts(func_addr as *const u8, 16) }.to_vec();
+    let split = 4096 - (func_addr & 0xfff) as usize;
+    emit(json!({"ev":"Target","f":"f1","orig":origb,"split":split,"rwpages":watch::writable_pages(func_addr),"addr":a8(func_addr)}));
+    let mut free = BTreeSet::new();
+    free.insert(tramp_page);
+    interpose::QUIET_FAILS.store(true, SeqCst);
+    interpose::set_policy(Some(Policy { free: Some(free), ..Default::default() }));
+    let mut inj = in_lib(InjectorPP::new);
+    let r = catch_unwind(AssertUnwindSafe(|| {
+        in_lib(|| unsafe {
+            inj.when_called_async_unchecked(injectorpp::async_func_unchecked!(pl_async_target(0)))
+                .will_return_async_unchecked(FuncPtr::new(fake_addr as *const (), ""))
+        })
+    }));
+    interpose::set_policy(None);
+    interpose::QUIET_FAILS.store(false, SeqCst);
+    watch::diff_all("install-end");
+    let entry = unsafe { std::slice::from_raw_parts(func_addr as *const u8, 16) }.to_vec();
+    if r.is_ok() && entry == origb {
+        // the poll function the library patched is another instance than the one this driver located
+        emit(json!({"ev":"Note","what":"skipped","why":"poll function instance not located"}));
+        return;
+    }
+    let tramp = interpose::OWNED.lock().unwrap().last().map(|x| x.0).unwrap_or(0);
+    let trampb = if tramp != 0 { unsafe { std::slice::from_raw_parts(tramp as *const u8, 16) }.to_vec() } else { vec![0u8; 16] };
+    let (outcome, cls, msg) = match &r {
+        Ok(()) => ("ok", "", String::new()),
+        Err(p) => {
+            let m = panics::payload_str(&**p);
+            ("panic", panics::classify(&m).0, m)
+        }
+    };
+    emit(json!({"ev":"Installed","outcome":outcome,"cls":cls,"msg":msg,"kind":"jump","v":0,
+        "func":a8(func_addr),"tramp":a8(tramp),"tramp_name":format!("m{:x}", tramp),"fake":a8(fake_addr),"fake_known":true,
+        "entry":entry,"trampb":trampb,"origb":origb,"want":3000,"orig_id":1007,
+        "quiet_mmap":interpose::QUIET_COUNT.swap(0, SeqCst),"live":interpose::owned_live()}));
+    let (res, _) = crate::asyncs::block_on(pl_async_target(7));
+    emit(json!({"ev":"Called","phase":"installed","res":res}));
+    // on another thread too, and the sibling keeps its own body
+    let res_t = std::thread::spawn(|| crate::asyncs::block_on(pl_async_target(7)).0).join().unwrap_or(0);
+    emit(json!({"ev":"Neighbour","which":"other-thread","res":res_t,"want": if outcome == "ok" { 3000 } else { 1007 }}));
+    emit(json!({"ev":"Neighbour","which":"sibling","res":crate::asyncs::block_on(pl_async_sibling(7)).0,"want":2007}));
+    in_lib(|| drop(inj));
+    watch::diff_all("drop-end");
+    let entry2 = unsafe { std::slice::from_raw_parts(func_addr as *const u8, 16) }.to_vec();
+    emit(json!({"ev":"Dropped","entry":entry2,"live":interpose::owned_live()}));
+    emit(json!({"ev":"Called","phase":"dropped","res":crate::asyncs::block_on(pl_async_target(7)).0}));
+    emit(json!({"ev":"Neighbour","which":"sibling-after-drop","res":crate::asyncs::block_on(pl_async_sibling(7)).0,"want":2007}));
 }
 
 pub fn run(script: &str, out: &str) {
@@ -279,6 +471,12 @@ pub fn run(script: &str, out: &str) {
         }
         let sc: Value = serde_json::from_str(line).expect("scenario json");
         SCENARIO.store(i(&sc, "id") as u64, SeqCst);
-        child::run_logged(30, || run_one(&sc));
+        if s(&sc, "flavour") == "async" {
+            child::run_logged(30, || run_async(&sc));
+        } else if s(&sc, "mode") == "multi" {
+            child::run_logged(30, || run_multi(&sc));
+        } else {
+            child::run_logged(30, || run_one(&sc));
+        }
     }
 }
